@@ -12,6 +12,8 @@
 (* the logical name into a file name is a named SITE:                      *)
 (*     save        save_ds            : file written                       *)
 (*     load        load_ds            : file opened                        *)
+(*     loadNewTest load_ds(create_new): os.path.exists(...) deciding        *)
+(*                                      between "blank dataset" and load    *)
 (*     mergeTest   save_merge_ds      : os.path.exists(...)                *)
 (*     mergeLoad   save_merge_ds      : load_ds(...) of the old content    *)
 (*     harvTest    load_full_ds       : os.access(..., W_OK)               *)
@@ -35,10 +37,10 @@ CONSTANTS NameExt,      \* "" | ".h5" | ".dmp" : the extension the logical name 
           Engine,       \* "h5netcdf" | "joblib"
           MaxLen,       \* length of the histories
           Policies,     \* subset of {"none", "true", "false"} : overwrite=None/True/False
-          OpsOn,        \* subset of {"Save","Load","SaveMerge","HarvSame","HarvFresh","Delete"}
+          OpsOn,        \* subset of {"Save","Load","LoadNew","SaveMerge","HarvSame","HarvFresh","Delete"}
           RawSites,     \* sites using the name as given
           DefEngSites,  \* sites using the default engine ("h5netcdf") instead of the given one
-          RtRule        \* "ok" | "rewriteAlways" | "rewriteNever" | "lazyStale"   (part 2)
+          RtRule        \* "ok" | "rewriteAlways" | "rewriteNever" | "rewriteByEquality" | "lazyStale"   (part 2)
 
 VARIABLES dir,      \* set of file names present
           content,  \* file -> set of pieces
@@ -53,7 +55,7 @@ VARIABLES dir,      \* set of file names present
 
 vars == <<dir, content, fmt, mem, sess, live, want, last, hist, rt>>
 
-Sites == {"save", "load", "mergeTest", "mergeLoad", "harvTest", "harvLoad", "harvRemove", "delete"}
+Sites == {"save", "load", "loadNewTest", "mergeTest", "mergeLoad", "harvTest", "harvLoad", "harvRemove", "delete"}
 Ext(e) == IF e = "h5netcdf" THEN ".h5" ELSE ".dmp"
 Name == "data" \o NameExt
 
@@ -112,6 +114,21 @@ Load ==
     /\ LET r == Read(FileAt("load"), Engine)
        IN  /\ last' = Outcome("Load", r.st, r.val, {}, {})
            /\ hist' = Append(hist, [op |-> "Load", pol |-> "none", p |-> 0, st |-> r.st,
+                                    dir |-> dir, disk |-> [f \in dir |-> content[f]], val |-> r.val])
+    /\ UNCHANGED <<dir, content, fmt, mem, sess, live, want, rt>>
+
+(* load_ds(name, engine, create_new=True, chunks=..): the stored content when the file the rule
+   names exists, a blank dataset otherwise; never creates a file.  Lazy loading (chunks) is
+   value-equal to loading into memory, so the chunks argument does not change the outcome; it
+   alternates with the step number so that both spellings occur in the emitted histories. *)
+ChunksAt(n) == IF n % 2 = 0 THEN "int" ELSE "none"
+LoadNew ==
+    /\ "LoadNew" \in OpsOn
+    /\ Len(hist) < MaxLen
+    /\ LET r == IF FileAt("loadNewTest") \in dir THEN Read(FileAt("load"), Engine)
+                                                ELSE [st |-> "blank", val |-> {}]
+       IN  /\ last' = Outcome("LoadNew", r.st, r.val, {}, {})
+           /\ hist' = Append(hist, [op |-> "LoadNew", pol |-> "none", p |-> 0, st |-> r.st, ch |-> ChunksAt(P),
                                     dir |-> dir, disk |-> [f \in dir |-> content[f]], val |-> r.val])
     /\ UNCHANGED <<dir, content, fmt, mem, sess, live, want, rt>>
 
@@ -192,7 +209,7 @@ HarvFresh == \E pol \in Policies : HarvSync(pol, TRUE)
 HarvSame == \E pol \in Policies : HarvSync(pol, FALSE)
 Finished == Len(hist) = MaxLen /\ UNCHANGED vars
 
-Next == Save \/ Load \/ Delete \/ SaveMergeAny \/ HarvFresh \/ HarvSame \/ Finished
+Next == Save \/ Load \/ LoadNew \/ Delete \/ SaveMergeAny \/ HarvFresh \/ HarvSame \/ Finished
 
 Spec == Init /\ [][Next]_vars
 
@@ -210,6 +227,10 @@ DiskIsWant == live => (content[FileOf(Engine)] = want /\ fmt[FileOf(Engine)] = E
 (* Load returns the last saved / merged content *)
 LoadReturnsLast == last.op = "Load" =>
     IF live THEN last.st = "ok" /\ last.val = want ELSE last.st = "nofile"
+
+(* load with create_new: the stored content whenever the dataset exists, blank only when it does not *)
+LoadNewReturnsLast == last.op = "LoadNew" =>
+    IF live THEN last.st = "ok" /\ last.val = want ELSE last.st = "blank"
 
 (* a merge always sees the previously saved content, never "file absent", and never fails to read it *)
 MergeSeesPrevious == last.op \in {"SaveMerge", "HarvFresh", "HarvSame"} =>
@@ -236,6 +257,9 @@ AttrsOf(sel) ==
                                                 [] k = "i" -> "int:3" [] k = "x" -> "float:2.5" [] k = "s" -> "str:hello"
                                                 [] k = "l" -> "seq:1,2,3"]
       [] sel = "flags" -> [k \in {"n", "t", "f"} |-> CASE k = "n" -> "py:None" [] k = "t" -> "py:True" [] k = "f" -> "py:False"]
+      [] sel = "ones"  -> [k \in {"i1", "i0", "x1", "x0", "n1"} |->
+                              CASE k = "i1" -> "int:1" [] k = "i0" -> "int:0" [] k = "x1" -> "float:1.0"
+                                [] k = "x0" -> "float:0.0" [] k = "n1" -> "npint:1"]     \* numbers that EQUAL True / False
       [] sel = "words" -> [k \in {"n", "t", "f"} |-> CASE k = "n" -> "str:None" [] k = "t" -> "str:True" [] k = "f" -> "str:False"]
       [] OTHER         -> [k \in {} |-> "x"]
 
@@ -244,14 +268,17 @@ Word(a) == CASE a = "py:None" -> "str:None" [] a = "py:True" -> "str:True" [] a 
 Documented(e, attrs) == IF e \in {"joblib", "zarr"} THEN attrs ELSE [k \in DOMAIN attrs |-> Word(attrs[k])]
 
 (* what save_ds does *)
+WordEq(a) == CASE a \in {"int:1", "float:1.0", "npint:1"} -> "str:True" [] a \in {"int:0", "float:0.0"} -> "str:False"
+                [] OTHER -> Word(a)
 Stored(e, attrs) ==
-    CASE RtRule = "rewriteAlways" -> [k \in DOMAIN attrs |-> Word(attrs[k])]
+    CASE RtRule = "rewriteByEquality" -> IF e \notin {"joblib", "zarr"} THEN [k \in DOMAIN attrs |-> WordEq(attrs[k])] ELSE attrs
+      [] RtRule = "rewriteAlways" -> [k \in DOMAIN attrs |-> Word(attrs[k])]
       [] RtRule = "rewriteNever"  -> attrs
       [] OTHER -> IF e \notin {"joblib", "zarr"} THEN [k \in DOMAIN attrs |-> Word(attrs[k])] ELSE attrs
 
 Configs == { [nd |-> nd, vdt |-> vdt, cdt |-> cdt, nan |-> nan, attrs |-> a, chunks |-> ch] :
                nd \in 0..4, vdt \in DTypes, cdt \in DTypes \cup {"-"}, nan \in {"none", "some", "all"},
-               a \in {"no", "all", "flags", "words"}, ch \in {"none", "int", "dict"} }
+               a \in {"no", "all", "flags", "words", "ones"}, ch \in {"none", "int", "dict"} }
 GoodConfig(c) == /\ (c.nd = 0) <=> (c.cdt = "-")
                  /\ c.nan \in NanPats(c.vdt)
                  /\ (c.nd = 0) => c.chunks # "dict"
